@@ -316,3 +316,101 @@ Definition chk_C16_reg_lookup (q1 q2 : bytes) (entries : list (bytes * bytes)) (
      end)
     (existsb (fun e : bytes * bytes => let '(a, b) := e in kf_key_collision q1 q2 a b) entries)
     true.
+
+(* ------------------------------------------------------------------ *)
+(* text / JSON / width (C18)                                            *)
+(* ------------------------------------------------------------------ *)
+From HT Require Import Num.Text.
+Definition sres_eqb := res_eqb (fun a b : list N => nlist_eqb a b).
+Definition canonical_int (s : str) : bool :=
+  forallb is_digit s && negb (N.of_nat (length s) =? 0) &&
+  (match s with b :: _ :: _ => negb (b =? ZERO) | _ => true end).
+(* rendering: agree with the model; the text is canonical and denotes exactly the value *)
+Definition chk_C18_u_display (n : N) (out : res str) : verdict :=
+  V (sres_eqb (Ok (render n)) out)
+    (match out with Ok s => canonical_int s && (denote s =? n) | Err _ => false end) false true.
+Definition chk_C18_u_string := chk_C18_u_display.
+(* value of an accepted decimal text: digit* ('.' digit{0,18})? *)
+Definition denote_dec (s : str) : option N :=
+  match split_dot s [] with
+  | [w] => if forallb is_digit w then Some (denote w * D) else None
+  | [w; f] => if forallb is_digit w && forallb is_digit f && (N.of_nat (length f) <=? 18)
+              then Some (denote w * D + denote f * 10 ^ (18 - N.of_nat (length f))) else None
+  | _ => None
+  end.
+Definition chk_C18_d_display (v : N) (out : res str) : verdict :=
+  V (sres_eqb (Ok (dec_render v)) out)
+    (match out with
+     | Ok s => match denote_dec s with
+               | Some x => (x =? v) &&
+                           (match rev s with b :: _ => if existsb (N.eqb DOT) s then negb (b =? ZERO) && negb (b =? DOT) else true | [] => false end)
+               | None => false end
+     | Err _ => false end) false true.
+(* parsing: accepted iff the text denotes a value < 2^256, and then exactly that value *)
+Definition chk_C18_u_fromstr (s : str) (out : res N) : verdict :=
+  V (nres_eqb (from_dec_str s) out)
+    (match out with
+     | Ok n => forallb is_digit s && (denote s =? n)
+     | Err EStd => negb (forallb is_digit s) || (W256 <=? denote s)
+     | Err _ => false end) false (is_ok out).
+Definition chk_C18_u_tryfrom := chk_C18_u_fromstr.
+Definition chk_C18_d_fromstr (s : str) (out : res N) : verdict :=
+  V (nres_eqb (dec_from_str s) out)
+    (match out, denote_dec s with
+     | Ok v, Some x => x =? v
+     | Ok _, None => false
+     | Err EStd, Some x => existsb (fun p => W256 <=? denote p) (split_dot s [])
+     | Err EStd, None => true
+     | Err Panic, Some x => W256 <=? x
+     | Err _, _ => false end) false (is_ok out).
+(* round trips through text and JSON on the real types *)
+Definition chk_C18_u_roundtrip (n : N) (disp : res str) (back : res N) (js : res str) (unjs : res N) : verdict :=
+  V (sres_eqb (Ok (render n)) disp && nres_eqb (from_dec_str (render n)) back &&
+     sres_eqb (Ok (uint_to_json n)) js && nres_eqb (uint_of_json (uint_to_json n)) unjs)
+    (nres_eqb (Ok n) back && nres_eqb (Ok n) unjs) false true.
+Definition chk_C18_d_roundtrip (v : N) (disp : res str) (back : res N) (js : res str) (unjs : res N) : verdict :=
+  V (sres_eqb (Ok (dec_render v)) disp && nres_eqb (dec_from_str (dec_render v)) back &&
+     sres_eqb (Ok (dec_to_json v)) js && nres_eqb (dec_of_json (dec_to_json v)) unjs)
+    (nres_eqb (Ok v) back && nres_eqb (Ok v) unjs) false true.
+Definition chk_C18_u_unjson (j : str) (out : res N) : verdict :=
+  V (nres_eqb (uint_of_json j) out) true false (is_ok out).
+Definition chk_C18_d_unjson (j : str) (out : res N) : verdict :=
+  V (nres_eqb (dec_of_json j) out) true false (is_ok out).
+(* widths *)
+Definition chk_C18_d_to_cwdec (v : N) (out : res N) : verdict :=
+  mk (dec256_to_cwdec v) out (eoa_b out (v <? W128) (fun r => r =? v)).
+Definition chk_C18_d_from_cwdec (a : N) (out : res N) : verdict :=
+  mk (cwdec_to_dec256 a) out (nres_eqb (Ok a) out).
+Definition chk_C18_u_from_u128 := chk_C08_u_from_u128.
+Definition chk_C18_u_from_uint128 := chk_C08_u_from_u128.
+Definition chk_C18_u_from_u64 := chk_C08_u_from_u128.
+Definition chk_C18_u_to_u128 := chk_C08_u_to_u128.
+Definition chk_C18_u_to_uint128 := chk_C08_u_to_u128.
+
+(* ------------------------------------------------------------------ *)
+(* world histories                                                      *)
+(* ------------------------------------------------------------------ *)
+From HT Require Import World.World World.Observe World.Monitors.
+Definition chk_hist (mon : monitor) (L : layout) (ubal fbal : N) (tdecs : list N)
+           (init_snap : list N) (steps : list hstep) : verdict :=
+  let '(a, allp, allpk, nok) := hist_result mon L ubal fbal tdecs init_snap steps in
+  V a allp (allpk && negb allp) (2 <=? nok).
+Definition chk_C01_hist := chk_hist mon_C01.
+Definition chk_C02_hist := chk_hist mon_C02.
+Definition chk_C03_hist := chk_hist mon_C03.
+Definition chk_C04_hist := chk_hist mon_C04.
+Definition chk_C05_hist := chk_hist mon_C05.
+Definition chk_C07_hist := chk_hist mon_C07.
+Definition chk_C09_hist := chk_hist mon_C09.
+Definition chk_C10_hist := chk_hist mon_generic.
+Definition chk_C11_hist := chk_hist mon_C11.
+Definition chk_C12_hist := chk_hist mon_C12.
+Definition chk_C13_hist := chk_hist mon_C13.
+Definition chk_C14_hist := chk_hist mon_C14.
+Definition chk_C15_hist := chk_hist mon_generic.
+Definition chk_C16_hist := chk_hist mon_C16.
+Definition chk_C17_hist := chk_hist mon_C17.
+Definition chk_C20_hist := chk_hist mon_C20.
+(* queries: the model's answer against the implementation's *)
+Definition chk_query (model out : res (list N)) : verdict :=
+  V (match model, out with Ok a, Ok b => nlist_eqb a b | Err _, Err _ => true | _, _ => false end) true false (is_ok out).
